@@ -162,6 +162,8 @@ def validate_traces(inst, exp, rrs, weak=None):
     files = {"inst.json": inst_json(inst), "trace.ndjson": ndjson(rows), "expected.json": json.dumps(exp)}
     mon = run_tlc("Monitor", "Monitor.cfg", files=files, workers=1, timeout=300)
     files["trace.ndjson"] = ndjson(drows)
+    if any(p.get("streams") or p.get("joins") for p in inst["procs"]):
+        return None, mon, drows      # streaming / joined ports are specified in Stream.tla / Join.tla, not in Flow.tla: monitors only
     det = run_tlc("FlowTrace", "ft.cfg", files=files, workers=1, timeout=300, cfgtext=trace_cfg(weak=weak), depth_first=False)
     return det, mon, drows
 
